@@ -52,6 +52,31 @@ theorem C31_prePath_total (e : Env) (p : List Char) : prePath e p ≠ .panic := 
         simp [hr]
       · split <;> simp
 
+/-- **C31 every path-carrying setting.** `workspaceRoots`, `ignoreDir`, `resource.paths`, and the
+plain entries of `library` / `packages` (lists of strings), for every workspace root (shallow or
+deep, `/` itself, non-ASCII), never panic however many `../` or `./` steps a path starts with. -/
+theorem C31_prePaths_total (e : Env) (ps : List (List Char)) : ∀ r ∈ prePaths e ps, r ≠ .panic := by
+  intro r hr
+  simp only [prePaths, List.mem_map] at hr
+  obtain ⟨p, _, rfl⟩ := hr
+  exact C31_prePath_total e p
+
+/-- the `{path, ignoreDir}` entries of `library` / `packages`: neither the path nor any `ignoreDir`
+entry (expanded relative to the expanded path) panics -/
+theorem C31_preItemConfig_total (e : Env) (path : List Char) (dirs : List (List Char)) :
+    (preItemConfig e path dirs).1 ≠ .panic ∧ ∀ r ∈ (preItemConfig e path dirs).2, r ≠ .panic := by
+  unfold preItemConfig
+  have h := C31_prePath_total e path
+  split
+  · rename_i s _
+    refine ⟨by simp, ?_⟩
+    intro r hr
+    simp only [List.mem_map] at hr
+    obtain ⟨d, _, rfl⟩ := hr
+    exact C31_prePath_total _ d
+  · rename_i hp; exact absurd hp h
+  · exact ⟨by simp, by simp⟩
+
 /-! ## non-vacuity (tests, labelled as such) -/
 
 example : prePath ⟨"/ws".toList, some "/home/u".toList, [], []⟩ ['~'] = .ok "/home/u/".toList := by decide +kernel
@@ -59,5 +84,10 @@ example : prePath ⟨"/ws".toList, some "/home/u".toList, [], []⟩ "~/x".toList
 example : prePath ⟨"/ws".toList, some "/home/u".toList, [], []⟩ "./é".toList = .ok "/ws/é".toList := by decide +kernel
 example : prePath ⟨"/ws".toList, none, [("V".toList, "val".toList)], []⟩ "${workspaceFolder}/$V".toList
     = .ok "/ws/val".toList := by decide +kernel
+
+-- more `../` steps than the workspace root has components, root `/`
+example : prePath ⟨"/".toList, some "/home/u".toList, [], []⟩ "../../../x".toList = .ok "/../../../x".toList := by decide +kernel
+example : (preItemConfig ⟨"/ws".toList, none, [], []⟩ "../../../lib".toList ["./../../t".toList]).2
+    = [.ok "/ws/../../../lib/../../t".toList] := by decide +kernel
 
 end Json
